@@ -128,3 +128,32 @@ def random_regauge(rng, rows, steps=None):
             rows[i] = pauli_mul(rows[i], rows[j])
     rng.shuffle(rows)
     return rows
+
+
+def random_state_rows(rng, n, depth=None):
+    """generators of a random n-qubit stabilizer state: a random H / S / CNOT circuit applied to |0..0> with the
+    textbook (Aaronson-Gottesman) update rules in plain Python - independent of graphiq; the result is only an INPUT
+    (TLC validates every state it is handed) and is re-gauged at random."""
+    x = [[0] * n for _ in range(n)]
+    z = [[1 if i == j else 0 for j in range(n)] for i in range(n)]
+    s = [rng.randrange(2) for _ in range(n)]
+    for _ in range(depth if depth is not None else rng.randint(3 * n, 8 * n)):
+        r = rng.random()
+        if r < 0.3 or n == 1:
+            q = rng.randrange(n)
+            for i in range(n):
+                s[i] ^= x[i][q] & z[i][q]
+                x[i][q], z[i][q] = z[i][q], x[i][q]
+        elif r < 0.55:
+            q = rng.randrange(n)
+            for i in range(n):
+                s[i] ^= x[i][q] & z[i][q]
+                z[i][q] ^= x[i][q]
+        else:
+            c, t = rng.sample(range(n), 2)
+            for i in range(n):
+                s[i] ^= x[i][c] & z[i][t] & (x[i][t] ^ z[i][c] ^ 1)
+                x[i][t] ^= x[i][c]
+                z[i][c] ^= z[i][t]
+    rows = [{"s": s[i], "p": [x[i][q] + 2 * z[i][q] for q in range(n)]} for i in range(n)]
+    return random_regauge(rng, rows)
